@@ -106,11 +106,11 @@ inductive Line where
   | inter (w : Nat) (vsn : Bool) (atoms : List Nat) (params : List String) (comment : Option String)
   deriving DecidableEq, Repr
 
-def spaces (n : Nat) : String := String.ofList (List.replicate n ' ')
+def spaces (n : Nat) : List Char := List.replicate n ' '
 /-- `'{:>w}'.format(s)` -/
-def padL (w : Nat) (s : String) : String := spaces (w - s.length) ++ s
+def padL (w : Nat) (s : String) : List Char := spaces (w - s.length) ++ s.toList
 /-- `'{:<w}'.format(s)` -/
-def padR (w : Nat) (s : String) : String := s ++ spaces (w - s.length)
+def padR (w : Nat) (s : String) : List Char := s.toList ++ spaces (w - s.length)
 
 def maxLen (l : List String) : Nat := l.foldl (fun acc s => max acc s.length) 0
 
@@ -124,33 +124,43 @@ def widthsOf (m : Mol) : Widths :=
     charge := maxLen (m.atoms.map (·.charge))
     mass := maxLen (m.atoms.map (·.mass)) }
 
-def joinSp (l : List String) : String := " ".intercalate l
+/-- `' '.join(cells)` on character lists -/
+def joinSp : List (List Char) → List Char
+  | [] => []
+  | a :: rest =>
+    match rest with
+    | [] => a
+    | _ :: _ => a ++ ' ' :: joinSp rest
 
-def renderLine : Line → String
-  | .blank => ""
-  | .comment t => "; " ++ t
-  | .sect n => "[ " ++ n ++ " ]"
-  | .directive kw args => joinSp (kw :: args)
-  | .free t => t
-  | .moltype a b => a ++ " " ++ b
+/-- the characters of a written line (without the newline) -/
+def renderLineChars : Line → List Char
+  | .blank => []
+  | .comment t => ';' :: ' ' :: t.toList
+  | .sect n => joinSp [['['], n.toList, [']']]
+  | .directive kw args => joinSp (kw.toList :: args.map String.toList)
+  | .free t => t.toList
+  | .moltype a b => joinSp [a.toList, b.toList]
   | .atom w i a =>
       joinSp [padL w.idx (toString i), padR w.atype a.atype, padL w.resid a.resid,
               padR w.resname a.resname, padR w.atomname a.atomname, padL w.cgnr a.cgnr,
               padL w.charge a.charge, padL w.mass a.mass]
   | .inter w vsn atoms params comment =>
-      let cells := atoms.map (fun i => padL w (toString i))
-      let p := joinSp params
+      let cells := atoms.map (fun (i : Nat) => padL w (toString i))
+      let p := joinSp (params.map String.toList)
       let toJoin := if vsn then
           (match cells with
            | a :: rest => a :: p :: rest
            | [] => [p])
         else cells ++ [p]
       joinSp toJoin ++ (match comment with
-        | some c => " ; " ++ c
-        | none => "")
+        | some c => ' ' :: ';' :: ' ' :: c.toList
+        | none => [])
 
-def render (ls : List Line) : String :=
-  String.join (ls.map (fun l => renderLine l ++ "\n"))
+def renderLine (l : Line) : String := String.ofList (renderLineChars l)
+
+def renderChars (ls : List Line) : List Char := ls.flatMap (fun l => renderLineChars l ++ ['\n'])
+
+def render (ls : List Line) : String := String.ofList (renderChars ls)
 
 /-! ### interaction ordering -/
 
